@@ -12,8 +12,10 @@ impl<S> Interp2D<S> {
 pub trait Interp2DStrategy: Sized {
     spec fn strat_wf(&self, i: &Interp2D<Self>) -> bool;
     spec fn query_ok(&self, x: T, y: T) -> bool;
+    spec fn interp_post(&self, i: &Interp2D<Self>, target_before: Seq<T>, x: T, y: T, r: Result<(), InterpolateError>, target_after: Seq<T>) -> bool;
     fn interp_into(&self, interpolator: &Interp2D<Self>, target: &mut Lanes, x: T, y: T) -> (r: Result<(), InterpolateError>)
-        requires interpolator.wf(), self.strat_wf(interpolator), self.query_ok(x, y);
+        requires interpolator.wf(), self.strat_wf(interpolator), self.query_ok(x, y)
+        ensures self.interp_post(interpolator, old(target)@, x, y, r, final(target)@);
 }
 /// value-level contract of one Bilinear lane: the nested-line (= bilinear) blend of the four corner
 /// values, depending on nothing but its operands, finite in => finite out
